@@ -1,7 +1,7 @@
 """C13 rules: R-BLK-POP, R-BLK-STRAND, R-BLK-UNREG, R-BLK-NOTIFY, R-BLK-REGPAIR, R-DISC-SIB,
 R-BLK-EOF."""
 import re
-from facts import callee, op_local, op_place, op_is_const
+from facts import callee, op_local, op_place, op_is_const, const_int
 import cfg, shared, prov, rules_cmd
 from shared import SERVER, ENGINE
 
@@ -253,7 +253,55 @@ def rule_notify(ctx, R):
                 R.finding(PNC, "arm:%s:single-notify-for-multi-push" % name,
                           "%s pushes several elements but wakes at most one blocked client: a second client blocked on the key stays blocked although an element nobody pops is in the list" % name,
                           pb.loc(nb[0]) if nb else pb.loc())
+        if notif and not via_script:
+            # whether to wake may depend on "something was pushed" (count > 0), never on how long
+            # the list is afterwards: between a notify and the wake-up being processed the list is
+            # non-empty while other clients are still blocked on it
+            reg = a["region"]
+            nb = [i for i in reg if pb.term(i)["k"] == "call" and callee(pb.term(i)) == BM + "notify_key_ready"]
+            hs = [i for i in reg if pb.term(i)["k"] == "call" and (ctx.cg.reach([callee(pb.term(i))]) & grow or callee(pb.term(i)) in grow)]
+            reach_n = cfg.bwd(pb, nb)
+            k = 0
+            for x in sorted(reg):
+                t = pb.term(x)
+                if t["k"] != "switch" or op_is_const(t["d"]) or pb.locals[op_place(t["d"])["l"]] != "bool":
+                    continue
+                tg = set(pb.succs(x))
+                if not (tg & reach_n) or not (tg - reach_n) or not any(x in cfg.fwd(pb, [h]) for h in hs):
+                    continue
+                cmp_ = _bool_comparison(pb, x, op_place(t["d"])["l"])
+                if cmp_ is None:
+                    continue
+                ops = [cmp_["a"], cmp_["b"]]
+                from_push = [o for o in ops if not op_is_const(o) and any(r[0] == "call" and r[2] in hs for r in prov.operand_origins(pb, o, deep=True).roots)]
+                if not from_push:
+                    continue
+                other = [o for o in ops if o not in from_push]
+                zero = [o for o in other if op_is_const(o) and const_int(o) in (0, 1)]
+                ok = len(from_push) == 1 and len(zero) == 1 and not (const_int(zero[0]) == 1 and cmp_["op"] not in ("Ge", "Lt"))
+                R.inst(PNC, "notify-guard:%s#%d" % (name, k), {"command": name, "at": pb.loc(x), "compares_push_result_with": "constant 0" if ok else "something else"})
+                if not ok:
+                    R.finding(PNC, "arm:%s:notify-depends-on-list-length" % name,
+                              "%s wakes blocked clients only if the length the push returned passes a test other than `> 0` (line %d): while a wake-up is pending the list is non-empty and other clients are still blocked on it, so a second push wakes nobody and they stay blocked although elements are available" % (name, pb.bb_line(x)), pb.loc(x))
+                k += 1
     R.floor("list_growing_arms", n)
+
+
+def _bool_comparison(b, bbi, l, depth=0):
+    """the comparison statement a switched bool comes from (through copies / negation)"""
+    if depth > 4:
+        return None
+    for kind, db, x in prov.build_defs(b).get(l, ()):
+        if kind != "stmt" or x["l"]["p"]:
+            continue
+        r = x["r"]
+        if r["k"] == "bin" and r["op"] in ("Lt", "Le", "Gt", "Ge", "Eq", "Ne"):
+            return r
+        if r["k"] in ("use", "un") and not op_is_const(r["o"]) and not op_place(r["o"])["p"]:
+            c = _bool_comparison(b, db, op_place(r["o"])["l"], depth + 1)
+            if c:
+                return c
+    return None
 
 
 def rule_regpair(ctx, R):
